@@ -65,8 +65,9 @@ def c03_events(term, out):
         out.stats.inc("refused_decompile")
         out.outcomes.add(("refused", type(src).__name__))
         return
-    v_imp, v_calls, _ = refvm.events(vm.world)
+    v_imp, v_calls, v_oth = refvm.events(vm.world)
     v_imp = [e for e in v_imp if e[1] not in BUILTIN_FAMILY]
+    v_set = [e for e in v_oth if e[0] == "setstate"]
     oke, ex = term.stub_exec
     if not oke:
         # decompiled text does not run under stubs: fall back to a static count on the AST
@@ -77,14 +78,26 @@ def c03_events(term, out):
             out.violate(PROP, f"C03|import-missing|static|{last_call_op(term)}",
                         f"VM resolves {miss[:2]} but the decompiled program has no such import: {src!r}",
                         term.replay(), len(term.seq))
+        n_setstate = sum(1 for n in ast.walk(term.tree[1]) if isinstance(n, ast.Call) and isinstance(n.func, ast.Attribute)
+                         and n.func.attr == "__setstate__")
+        if len(v_set) > n_setstate:
+            out.violate(PROP, f"C03|setstate-missing|static|{last_call_op(term)}",
+                        f"VM applies state {len(v_set)} time(s) (BUILD), decompiled program has {n_setstate} __setstate__ call(s): {src!r}",
+                        term.replay(), len(term.seq))
         if len(v_calls) > s_calls:
             out.violate(PROP, f"C03|call-missing|static|{last_call_op(term)}",
                         f"VM performs {len(v_calls)} call(s), decompiled program contains {s_calls}: {src!r}",
                         term.replay(), len(term.seq))
         return
     w, _ns = ex
-    d_imp, d_calls, _ = refvm.events(w)
+    d_imp, d_calls, d_oth = refvm.events(w)
+    d_set = [e for e in d_oth if e[0] == "setstate"]
     out.stats.inc("event_comparisons")
+    miss = _mult_missing(v_set, d_set)
+    if miss:
+        out.violate(PROP, f"C03|setstate-missing|{last_call_op(term)}",
+                    f"VM calls __setstate__ (BUILD) {_short(miss[0])} but the decompiled program does not: {src!r}",
+                    term.replay(), len(term.seq))
     out.outcomes.add(("events", len(v_imp), len(v_calls)))
     miss = _mult_missing(v_imp, d_imp)
     if miss:
